@@ -119,11 +119,23 @@ func DetDriver(r *rand.Rand, n int) [][]Action {
 		}
 		// a Dict with many pairs: identifier / literal / already imported qualified keys, qualified values
 		np := 2 + r.Intn(11)
+		big := i%5 == 4
+		if big {
+			// a LARGE Dict: dozens of pairs, keys that are long and share a long prefix, every value qualified with a
+			// package of its own, all of them competing for one name
+			np = 36 + r.Intn(40)
+		}
 		d := &Node{K: "dict"}
 		keyTexts := map[string]bool{}
 		for j := 0; j < np; j++ {
 			var key *Node
-			switch r.Intn(5) {
+			kind := r.Intn(5)
+			if big && r.Intn(3) != 0 {
+				kind = 5
+			}
+			switch kind {
+			case 5:
+				key = stm(lit(strconv.Quote("a/very/long/common/prefix/that/all/the/keys/of/this/table/share/with/each/other/" + strconv.Itoa(j*7919%1000))))
 			case 0:
 				key = stm(idn("K" + strconv.Itoa(j)))
 			case 1:
@@ -159,6 +171,9 @@ func DetDriver(r *rand.Rand, n int) [][]Action {
 			}
 			keyTexts[kt] = true
 			p := fmt.Sprintf("v%d/%s", r.Intn(4), []string{"d", "val"}[r.Intn(2)])
+			if big {
+				p = fmt.Sprintf("gen/v%d/model", j)
+			}
 			val := stm(grp("qual", &Node{K: "tok", T: "pkg", V: p}, idn(st.sym(p))))
 			d.Items = append(d.Items, &Node{K: "pair", Items: []*Node{key, val}})
 			d.Order = append(d.Order, j+1)
